@@ -1293,7 +1293,7 @@ func c17Child(r *ev.Run, batch int) {
 	c17InstallHook()
 	n := 8
 	if !r.Quick() {
-		n = 12
+		n = 48
 	}
 	for hi := 0; hi < n; hi++ {
 		p := prng.Derive(ev.Seed(), "C17", batch, hi)
